@@ -574,7 +574,7 @@ func genTime() time.Time {
 	case 2:
 		sec = 4102444800 + rnd.Int63n(253402300799-4102444800-200000) // up to 9999
 	case 3:
-		sec = []int64{0, 1136214245, 951782400, 1709251199, -1}[rnd.Intn(5)]
+		sec = []int64{0, 1136214245, 951782400, 1709251199, -1, -62135596800, -62135596800, -62135596801}[rnd.Intn(8)] // incl. Go's zero instant
 	default:
 		sec = 946684800 + rnd.Int63n(1000000000)
 	}
@@ -591,7 +591,13 @@ func genTime() time.Time {
 	default:
 		ns = rnd.Int63n(1000000000)
 	}
+	if sec == -62135596800 && rnd.Intn(2) == 0 {
+		ns = []int64{0, 0, 1}[rnd.Intn(3)] // time.Time{} exactly, or one nanosecond later
+	}
 	t := time.Unix(sec, ns)
+	if rnd.Intn(6) == 0 {
+		return t.In(time.Local) // the process's local zone (TZ): time.Parse attaches time.Local to such offsets
+	}
 	off := zones[rnd.Intn(len(zones))]
 	if off == 0 && rnd.Intn(2) == 0 {
 		return t.UTC()
@@ -625,11 +631,9 @@ func genPredID() string {
 func genPred() *predicate.Predicate {
 	id := genPredID()
 	if rnd.Intn(2) == 0 {
-		p, _ := predicate.NewImmutable(id)
-		return p
+		return checkedImmutable(id)
 	}
-	p, _ := predicate.NewTemporal(id, genTime())
-	return p
+	return checkedTemporal(id, genTime())
 }
 
 var intEdges = []int64{0, 1, -1, 63, 64, -64, -65, 127, 128, 255, 256, 1 << 31, -(1 << 31), 1<<55 - 1, 1 << 55, -(1 << 55), -(1 << 55) - 1,
@@ -882,6 +886,14 @@ func corpusValues() []struct {
 		{"pred-id-anchor-marker", immOf("a\"@[b")},
 		{"pred-id-space", immOf("x y")},
 		{"pred-id-nonascii", tmpOf("é\xff\u00a0\\", t0)},
+		{"pred-anchor-zero-instant", tmpOf("x", time.Time{})},
+		{"pred-anchor-zero-instant-zone", tmpOf("x", time.Time{}.In(time.FixedZone("", 3600)))},
+		{"pred-anchor-zero-instant-minus-zone", tmpOf("x", time.Time{}.In(time.FixedZone("", -34200)))},
+		{"pred-anchor-zero-plus-1ns", tmpOf("x", time.Time{}.Add(1))},
+		{"pred-anchor-zero-minus-1ns", tmpOf("x", time.Time{}.Add(-1))},
+		{"pred-anchor-local-zone", tmpOf("x", time.Date(2006, 7, 2, 15, 4, 5, 0, time.Local))},
+		{"pred-anchor-local-zone-winter", tmpOf("x", time.Date(2006, 1, 2, 15, 4, 5, 999, time.Local))},
+		{"obj-pred-anchor-zero-instant", objOf(tmpOf("y", time.Time{}))},
 		{"pred-anchor-zone-seconds", tmpOf("x", time.Date(1900, 1, 1, 12, 0, 0, 0, time.FixedZone("LMT", 1172)))},
 		{"lit-text-escapes-path", litOf(literal.Text, "C:\\new\\table")},
 		{"lit-text-escapes-2", litOf(literal.Text, "a\\\\b")},
@@ -925,10 +937,10 @@ func siblings(v val) []val {
 				} else {
 					t2 = ta.In(time.FixedZone("", z))
 				}
-				q, _ := predicate.NewTemporal(string(p.ID()), t2)
+				q := checkedTemporal(string(p.ID()), t2)
 				ps = append(ps, q)
 			}
-			q, _ := predicate.NewTemporal(string(p.ID()), ta.Add(1))
+			q := checkedTemporal(string(p.ID()), ta.Add(1))
 			ps = append(ps, q)
 			q2, _ := predicate.NewImmutable(string(p.ID()))
 			ps = append(ps, q2)
@@ -1195,6 +1207,7 @@ func readCase(src, text string, tb *tables) J {
 }
 
 func modeGraph(n int) {
+	faultCases()
 	s1, p1 := nodeOf("/a", "b"), immOf("p")
 	mk := func(o val) *triple.Triple { t, _ := triple.New(s1.n, p1.p, objOf(o).o); return t }
 	corpus := []struct {
@@ -1283,6 +1296,105 @@ func modeGraph(n int) {
 		j["tables"] = r["tables"]
 		delete(r, "tables")
 		emit(j)
+	}
+}
+
+// a writer that accepts limit bytes and then fails (with a short write for the chunk that crosses the limit)
+type limitWriter struct {
+	limit int
+	buf   bytes.Buffer
+}
+
+func (w *limitWriter) Write(p []byte) (int, error) {
+	room := w.limit - w.buf.Len()
+	if room >= len(p) {
+		return w.buf.Write(p)
+	}
+	if room > 0 {
+		w.buf.Write(p[:room])
+	} else {
+		room = 0
+	}
+	return room, fmt.Errorf("limitWriter: full after %d bytes", w.limit)
+}
+
+// a reader that delivers limit bytes and then fails
+type limitReader struct {
+	data  string
+	limit int
+	pos   int
+}
+
+func (r *limitReader) Read(p []byte) (int, error) {
+	if r.pos >= r.limit {
+		return 0, fmt.Errorf("limitReader: failed after %d bytes", r.limit)
+	}
+	n := copy(p, r.data[r.pos:r.limit])
+	r.pos += n
+	return n, nil
+}
+
+// WriteGraph into failing writers, ReadIntoGraph from failing readers: "both operations report that number of triples"
+func faultCases() {
+	for _, k := range []int{6, 100} {
+		var ts []*triple.Triple
+		for j := 0; j < k; j++ {
+			ts = append(ts, genSafeTriple())
+		}
+		g := newGraph()
+		g.AddTriples(context.Background(), ts)
+		stored, _ := graphLines(g)
+		var full bytes.Buffer
+		bwio.WriteGraph(context.Background(), &full, g)
+		total := full.Len()
+		lims := []int{0, 1, 17, total / 2, total - 1, total, total + 1, 4095, 4096, 4097, 6000, 8191, 8192, 8193}
+		for _, lim := range lims {
+			w := &limitWriter{limit: lim}
+			j := J{"kind": "wfault", "triples": len(stored), "total": total, "limit": lim}
+			func() {
+				defer func() {
+					if r := recover(); r != nil {
+						j["panic"] = true
+					}
+				}()
+				n, err := bwio.WriteGraph(context.Background(), w, g)
+				j["n"], j["err"] = n, err != nil
+			}()
+			j["written"] = w.buf.Len()
+			j["complete"] = w.buf.String() == full.String()
+			emit(j)
+		}
+		text := full.String()
+		for _, lim := range append(lims, total/3, 2*total/3) {
+			if lim > total {
+				continue
+			}
+			g2 := newGraph()
+			j := J{"kind": "rfault", "total": total, "limit": lim, "lines_delivered": strings.Count(text[:lim], "\n")}
+			func() {
+				defer func() {
+					if r := recover(); r != nil {
+						j["panic"] = true
+					}
+				}()
+				n, err := bwio.ReadIntoGraph(context.Background(), g2, &limitReader{data: text, limit: lim}, literal.DefaultBuilder())
+				j["n"], j["err"] = n, err != nil
+			}()
+			ls, _ := graphLines(g2)
+			j["stored"] = len(ls)
+			orig := map[string]bool{}
+			for _, s := range stored {
+				orig[s] = true
+			}
+			foreign := 0
+			for _, s := range ls {
+				if !orig[s] {
+					foreign++
+				}
+			}
+			j["foreign"] = foreign
+			emit(j)
+		}
 	}
 }
 
@@ -1392,10 +1504,54 @@ func litOf(ty literal.Type, v interface{}) val {
 	}
 	return val{l: l}
 }
-func immOf(id string) val { p, _ := predicate.NewImmutable(id); return val{p: p} }
+func immOf(id string) val { return val{p: checkedImmutable(id)} }
 func tmpOf(id string, t time.Time) val {
-	p, _ := predicate.NewTemporal(id, t)
-	return val{p: p}
+	return val{p: checkedTemporal(id, t)}
+}
+
+// The harness observes values through their getters; a value whose getters do not return what the constructor was given
+// would be observed consistently wrong.  Every predicate construction is therefore checked against its arguments.
+var ctorIssues []J
+
+func checkedTemporal(id string, t time.Time) *predicate.Predicate {
+	p, err := predicate.NewTemporal(id, t)
+	if err != nil || p == nil {
+		return p
+	}
+	want := obsTime(t)
+	issue := ""
+	if string(p.ID()) != id {
+		issue = "ID() differs from the constructor argument"
+	} else if p.Type() != predicate.Temporal {
+		issue = "NewTemporal returned a predicate whose Type() is not Temporal"
+	} else if ta, e := p.TimeAnchor(); e != nil || ta == nil {
+		issue = "TimeAnchor() fails on a temporal predicate"
+	} else if got := obsTime(*ta); got["ns"] != want["ns"] || got["off"] != want["off"] {
+		issue = "TimeAnchor() differs from the constructor argument"
+	}
+	if issue != "" && len(ctorIssues) < 20 {
+		ctorIssues = append(ctorIssues, J{"kind": "ctor", "what": issue, "id": hx(id), "anchor": want, "printed": hx(p.String())})
+	}
+	return p
+}
+
+func checkedImmutable(id string) *predicate.Predicate {
+	p, err := predicate.NewImmutable(id)
+	if err != nil || p == nil {
+		return p
+	}
+	issue := ""
+	if string(p.ID()) != id {
+		issue = "ID() differs from the constructor argument"
+	} else if p.Type() != predicate.Immutable {
+		issue = "NewImmutable returned a predicate whose Type() is not Immutable"
+	} else if _, e := p.TimeAnchor(); e == nil {
+		issue = "TimeAnchor() succeeds on an immutable predicate"
+	}
+	if issue != "" && len(ctorIssues) < 20 {
+		ctorIssues = append(ctorIssues, J{"kind": "ctor", "what": issue, "id": hx(id), "anchor": nil, "printed": hx(p.String())})
+	}
+	return p
 }
 func objOf(v val) val {
 	switch {
@@ -1436,6 +1592,12 @@ func fixedPairs() [][2]val {
 		{tmpOf("x", t0), tmpOf("x", t0.Add(1))},
 		{tmpOf("x", time.Date(1700, 1, 1, 0, 0, 0, 0, time.UTC)), tmpOf("x", time.Date(1700, 1, 1, 0, 0, 0, 0, time.UTC).Add(1<<62).Add(1<<62).Add(1<<62).Add(1<<62))},
 		{immOf("ab"), immOf("a")},
+		{immOf("x"), tmpOf("x", time.Time{})},
+		{immOf("x"), tmpOf("x", time.Time{}.In(time.FixedZone("", 3600)))},
+		{tmpOf("x", time.Time{}), tmpOf("x", time.Time{}.In(time.FixedZone("", -3600)))},
+		{tmpOf("x", time.Time{}), tmpOf("x", time.Time{}.Add(1))},
+		{tmpOf("x", time.Time{}), tmpOf("x", time.Time{}.Add(-1))},
+		{objOf(immOf("x")), objOf(tmpOf("x", time.Time{}))},
 		{immOf("a"), tmpOf("aimmutable"[:1], t0)},
 	}
 	return ps
@@ -1972,6 +2134,11 @@ func main() {
 	flag.Parse()
 	rnd = rand.New(rand.NewSource(*seed))
 	defer out.Flush()
+	defer func() {
+		for _, j := range ctorIssues {
+			emit(j)
+		}
+	}()
 	switch *mode {
 	case "parse":
 		modeParse(*tier, *n, *alpha, *maxlen)
